@@ -28,7 +28,7 @@ ASSUMPTIONS = ["supported power controls: AT4 = toggle/off/on, AT5 adds away/sle
 
 def bounds(tier):
     return {"temperature_grid": "j/100 for j in [-1000,6000] (0.01 degC, ties included)", "damper": "[-5,105]", "mode_bitmaps": "all 32", "fan_bitmaps": "all 128 (AT4) / 256 (AT5)",
-            "reported_timers": "all (disabled, hour 0..23, minute 0..59) for both timers"}
+            "reported_timers": "all (disabled, hour 0..23, minute 0..59) for both timers", "numbering": "fixed AC 1 / zone 3 except the addressing instances" if tier == "quick" else "every call over every AC / zone number", "ability_bitmaps": "the bitmap relevant to the call free, the other fixed" if tier == "quick" else "also both bitmaps free at once (ac_mode, ac_fan)"}
 
 
 def instances(tier):
